@@ -23,7 +23,8 @@ RULE = ("Hypothesis: tensors of order 2-5 with sides 1-4 (<= 400 entries; TT-mat
         "beyond the mode sizes given as int or list; svd in {truncated_svd, symeig_svd}; HOOI with n_iter_max in "
         "{1,2,3,10,100} and tol in {default,0}; partial_tucker on every non-empty ascending mode subset; every TR start mode; "
         "each tucker/TT/TT-matrix/TR case through the function or the estimator class (Tucker, TensorTrain, TensorTrainMatrix, "
-        "TensorRing.fit_transform); history sub-checks decompose a small tensor first and then the case tensor with the same "
+        "TensorRing.fit_transform); data class pm1 (+-1 entries, tied singular values); monotone sub-checks: error after k>=1 HOOI sweeps <= error of the "
+        "same call with n_iter_max=0 (HOSVD start) * (1+1e-9) + 1e-12*||X||; history sub-checks decompose a small tensor first and then the case tensor with the same "
         "rank list object / estimator and judge the second result against the original request. "
         "Oracle: sigma of mode unfoldings (Tucker) / sequential unfoldings (TT, TT-matrix after the interleaving "
         "permutation) / the start-mode unfolding (TR) from numpy.linalg.svd; "
@@ -61,6 +62,11 @@ def _tensor(spec):
     if kind == "enc":
         return gen.dec(spec["a"])
     shape = spec["shape"]
+    if kind == "pm1":
+        # entries +-1 (optionally with zeros): exactly tied singular values at many truncation points
+        rs = np.random.RandomState(int(spec["seed"]) % (2 ** 32))
+        vals = [-1.0, 0.0, 1.0] if spec.get("zeros") else [-1.0, 1.0]
+        return rs.choice(vals, size=tuple(shape))
     if kind == "tucker":
         return gen.lowrank_tucker_tensor(spec["seed"], shape, spec["ranks"])
     if kind == "cp":
@@ -171,8 +177,8 @@ def _num_rank(sig):
 # ----------------------------------------------------------------------------
 # Tucker
 # ----------------------------------------------------------------------------
-def _tucker_call(case, X):
-    kw = {"n_iter_max": case["n_iter"], "svd": case["svd"], "init": "svd", "random_state": case.get("rs", 0)}
+def _tucker_call(case, X, n_iter=None):
+    kw = {"n_iter_max": case["n_iter"] if n_iter is None else n_iter, "svd": case["svd"], "init": "svd", "random_state": case.get("rs", 0)}
     if case["tol"] is not None:
         kw["tol"] = case["tol"]
     rank = case["rank"]
@@ -253,6 +259,33 @@ def o_tucker_exact(case):
           lambda: f"error {err:.6e} > {slack:.2e} although rank {req} covers unfolding ranks {[_num_rank(s) for s in sigs]} (shape {X.shape})")
     info["nontrivial"] = any(_num_rank(s) == r < X.shape[m] for s, r, m in zip(sigs, req, modes)) or \
         any(_num_rank(s) < X.shape[m] for s, m in zip(sigs, modes))
+    return info
+
+
+def _dense_error(X, core, factors, modes):
+    return _norm(X - ref.tucker_dense(as_array(core, "ranks/core"), [as_array(f, "ranks/factor") for f in factors], modes=modes))
+
+
+def o_tucker_monotone(case):
+    """HOSVD init followed by HOOI sweeps that can only enlarge the core norm: the error after k >= 1 sweeps is not
+    above the error of the same call with n_iter_max=0 (the HOSVD initialisation itself)."""
+    X, req, got, modes, err, sigs, tails = _tucker_common(case)
+    nx = _norm(X)
+    info = _tucker_info(case, X, req, modes, sigs, tails)
+    core0, factors0, _ = _tucker_call(case, _lib_in(case["X"], X), n_iter=0)
+    factors0 = [as_array(f, "ranks/factor") for f in factors0]
+    orth = all(np.max(np.abs(f.T @ f - np.eye(f.shape[1]))) <= 1e-8 for f in factors0)
+    info["labels"].append(f"init_orthonormal={int(orth)}")
+    if not orth:
+        # only symeig_svd on rank-deficient unfoldings (D19): the monotonicity argument needs an orthonormal start
+        check(case["svd"] == "symeig_svd", "monotone/init-orthonormal", "HOSVD factors of truncated_svd are not orthonormal")
+        info["nontrivial"] = False
+        return info
+    err0 = _dense_error(X, core0, factors0, modes)
+    check(err <= err0 * (1 + 1e-9) + 1e-12 * max(nx, 1e-300), f"monotone/not-worse-than-hosvd[{case['svd']}]",
+          lambda: f"error after {case['n_iter']} sweep(s) {err:.9e} > HOSVD (n_iter_max=0) error {err0:.9e}; shape {X.shape} rank {req} modes {modes}")
+    info["labels"].append(f"improved={int(err < err0 * (1 - 1e-9))}")
+    info["nontrivial"] = bool(err0 > 1e-9 * nx)
     return info
 
 
@@ -524,6 +557,12 @@ def _data(draw, shape, classes):
             spec["dt"] = dt
         return spec
     seed = draw(gen.seeds)
+    if cls == "pm1":
+        spec = {"kind": "pm1", "sub": "pm1", "shape": shape, "seed": seed, "zeros": draw(st.booleans())}
+        dt = draw(st.sampled_from([None, None, "int64", "int32"]))
+        if dt is not None:
+            spec["dt"] = dt
+        return spec
     if cls == "tucker":
         return {"kind": "tucker", "shape": shape, "seed": seed, "ranks": [draw(st.integers(1, s)) for s in shape]}
     if cls == "cp":
@@ -543,7 +582,8 @@ def _data(draw, shape, classes):
     raise ValueError(cls)
 
 
-GENERIC = ("normal", "int", "seedint", "tucker", "cp", "tt")
+GENERIC = ("normal", "int", "seedint", "tucker", "cp", "tt", "pm1", "pm1")
+TIED = ("pm1", "pm1", "pm1", "int", "seedint", "normal")      # mostly exact ties at the truncation point
 LOWRANK = ("tucker", "cp", "tt", "tucker", "cp", "tt", "normal", "int", "seedint")
 
 
@@ -562,9 +602,9 @@ def _rank_entry(draw, true_rank, size, sufficient):
 
 
 @st.composite
-def _tucker_case(draw, svd, sufficient=False, partial=False):
+def _tucker_case(draw, svd, sufficient=False, partial=False, classes=None):
     shape = draw(_shape())
-    spec = draw(_data(shape, LOWRANK if sufficient else GENERIC))
+    spec = draw(_data(shape, classes or (LOWRANK if sufficient else GENERIC)))
     X = _tensor(spec)
     N = len(shape)
     modes = None
@@ -715,6 +755,8 @@ def subchecks(tier):
             SubCheck(f"tucker/ranks/{tag}", _tucker_case(svd), o_tucker_ranks, quick=200, thorough=1500),
             SubCheck(f"partial_tucker/bounds/{tag}", _tucker_case(svd, partial=True), o_tucker_bounds, quick=250, thorough=2000),
             SubCheck(f"partial_tucker/exact/{tag}", _tucker_case(svd, sufficient=True, partial=True), o_tucker_exact, quick=200, thorough=1500),
+            SubCheck(f"tucker/monotone/{tag}", _tucker_case(svd, classes=TIED), o_tucker_monotone, quick=250, thorough=2000),
+            SubCheck(f"partial_tucker/monotone/{tag}", _tucker_case(svd, partial=True, classes=TIED), o_tucker_monotone, quick=250, thorough=2000),
             SubCheck(f"tt/bounds/{tag}", _tt_case(svd), _o_tt("bounds"), quick=400, thorough=3000),
             SubCheck(f"tt/exact/{tag}", _tt_case(svd, sufficient=True), _o_tt("exact"), quick=400, thorough=3000),
             SubCheck(f"tt/ranks/{tag}", _tt_case(svd), _o_tt("ranks"), quick=300, thorough=2000),
